@@ -259,6 +259,21 @@ func main() {
 			}
 		}
 	}
+	if dir := os.Getenv("VH_DEBUG_CASES"); dir != "" {
+		seen := map[int]bool{}
+		for _, d := range res.Disagreements {
+			if seen[d.Case] {
+				continue
+			}
+			seen[d.Case] = true
+			var b strings.Builder
+			fmt.Fprintf(&b, "# disagreement at line %d: model=%s\n", d.Line, d.Model)
+			for _, l := range c.Cases[d.Case].Lines {
+				b.WriteString(l.Op + " => " + l.Impl + "\n")
+			}
+			_ = os.WriteFile(fmt.Sprintf("%s/case-%d-%d.txt", dir, *seed, d.Case), []byte(b.String()), 0o644)
+		}
+	}
 	sort.Slice(res.Violations, func(i, j int) bool { return res.Violations[i].Key < res.Violations[j].Key })
 	res.WallS = time.Since(start).Seconds()
 	b, _ := json.MarshalIndent(res, "", " ")
